@@ -25,6 +25,7 @@ RULE = ("A source tree (float with unit, int, bool, str, float array, a nested n
         "value of the source, slice applied; unit rule as stated; then conversion into the host's definition unit; "
         "imports copy value, type, unit and constraints). The base environment's data(TUPLE) and unit list must be "
         "identical before and after. Non-trivial: an injection after a modification of the source, or with a unit "
+        "Round 4: a source node with value and children, import-modify-reference, options and $unit given by reference, a sourced file rewritten between parses. "
         "change, or a slice, or an import with constraints. Distinct = distinct case JSON.")
 ASSUMPTIONS = [
     "remote sources are immutable inside one parse: source modifications are generated for local/base sources only",
